@@ -420,6 +420,13 @@ def validate_lin(c, path, timeout=1800):
 
 
 def check_C15(c):
+    # design level: the composition client conn | wire | worker pool + ordered responses | one block, with the
+    # three mechanisms of the anchors as constants (each ablation must break the witness invariant)
+    if c.tier == "thorough":
+        c.model("EndToEnd", "EndToEnd.thorough.cfg", note="5 callers (2 writers), 3 workers", timeout=2400, workers=16)
+    c.model("EndToEnd", "EndToEnd.cfg", note="4 callers (2 writers), 2 workers; with liveness (every call returns)", timeout=900)
+    for a in ("ReplyAfterHandler", "OwnBuffer", "RouteById"):
+        c.model("EndToEnd", "EndToEnd.abl_%s.cfg" % a, must="fail", expect="Inv_C15_Linearizable", note="mechanism %s removed" % a)
     rc, out, path = c.run("TestVerif_Lin", timeout=6000)
     traces = count_traces(c, path, ["backend", "bs", "G", "R", "t"])
     c.cov["rule"] = ("a case is one concurrent history: 2-4 goroutines x 3-5 single-packet operations (ReadAt / WriteAt of whole blocks, Stat) over one Client on one or two "
